@@ -34,7 +34,12 @@ class T2TSilicon(object):
 
     def garbage(self):
         # an unreadable frame: tag stays silent; state unchanged
-        pass
+        self.idle()
+
+    def idle(self):
+        # a command slot passed without a readable frame: the wait for SECTOR SELECT packet 2 (at most 1 ms) is over,
+        # the tag stays in the sector it was in
+        self.sector_select_pending = False
 
     def poll(self, target):
         sel_req = target.sel_req
